@@ -74,6 +74,14 @@ class Subst(ast.NodeTransformer):
     def visit_Lambda(self, node):
         return node
 
+    def visit_Subscript(self, node):
+        node = self.generic_visit(node)
+        # (a, b)[0] is a: a written-out tuple that reached the subscript by substitution
+        v = node.value
+        if isinstance(node.ctx, ast.Load) and isinstance(v, (ast.Tuple, ast.List)) and not any(isinstance(x, ast.Starred) for x in v.elts) and isinstance(node.slice, ast.Constant) and isinstance(node.slice.value, int) and not isinstance(node.slice.value, bool) and -len(v.elts) <= node.slice.value < len(v.elts):
+            return v.elts[node.slice.value]
+        return node
+
     def visit_Call(self, node):
         node = self.generic_visit(node)
         # f(*(a, b)) is f(a, b): a written-out tuple that reached a star position by substitution
@@ -86,6 +94,13 @@ class Subst(ast.NodeTransformer):
                     new.append(a)
             node = copy.copy(node)
             node.args = new
+        # getattr(o, "name") with the name a constant that reached the call by substitution
+        if isinstance(node.func, ast.Name) and node.func.id == "getattr" and len(node.args) == 2 and not node.keywords and isinstance(node.args[1], ast.Constant) and isinstance(node.args[1].value, str) and node.args[1].value.isidentifier():
+            return ast.copy_location(ast.Attribute(value=node.args[0], attr=node.args[1].value, ctx=ast.Load()), node)
+        # list((a, b)) is [a, b]
+        if isinstance(node.func, ast.Name) and node.func.id in ("list", "tuple") and len(node.args) == 1 and not node.keywords and isinstance(node.args[0], (ast.Tuple, ast.List)) and not any(isinstance(x, ast.Starred) for x in node.args[0].elts):
+            cls_ = ast.List if node.func.id == "list" else ast.Tuple
+            return ast.copy_location(cls_(elts=list(node.args[0].elts), ctx=ast.Load()), node)
         return node
 
     def visit_ListComp(self, node):
@@ -138,6 +153,8 @@ def expand(expr, env):
 
 def _truth_under(test, assume):
     """True/False/None for `test` given assumed constants {name or text: value}."""
+    if isinstance(test, ast.Call) and isinstance(test.func, ast.Name) and test.func.id == "bool" and len(test.args) == 1 and not test.keywords:
+        return _truth_under(test.args[0], assume)  # bool(x) in a test is the truth of x
     if isinstance(test, ast.UnaryOp) and isinstance(test.op, ast.Not):
         v = _truth_under(test.operand, assume)
         return None if v is None else (not v)
@@ -417,6 +434,8 @@ class _ReplaceNode(ast.NodeTransformer):
                 else:
                     new.append(a)
             node.args = new
+        if isinstance(node, ast.Subscript) and isinstance(node.ctx, ast.Load) and isinstance(node.value, (ast.Tuple, ast.List)) and not any(isinstance(x, ast.Starred) for x in node.value.elts) and isinstance(node.slice, ast.Constant) and isinstance(node.slice.value, int) and not isinstance(node.slice.value, bool) and -len(node.value.elts) <= node.slice.value < len(node.value.elts):
+            return node.value.elts[node.slice.value]
         return node
 
 
@@ -466,7 +485,22 @@ class _FoldConst(ast.NodeTransformer):
 def _const_truth(test):
     from .astutil import _int_eval, _NoEval
 
+    # <arithmetic / display> is None: an operator result or a written-out tuple is never None
+    if isinstance(test, ast.Compare) and len(test.ops) == 1 and isinstance(test.ops[0], (ast.Is, ast.IsNot)):
+        for a, b in ((test.left, test.comparators[0]), (test.comparators[0], test.left)):
+            if isinstance(b, ast.Constant) and b.value is None:
+                if isinstance(a, ast.Constant):
+                    return (a.value is None) == isinstance(test.ops[0], ast.Is)
+                if isinstance(a, (ast.BinOp, ast.Tuple, ast.List, ast.Dict, ast.Compare, ast.JoinedStr)) and not (isinstance(a, ast.BinOp) and isinstance(a.op, (ast.BitOr, ast.BitAnd))):
+                    return isinstance(test.ops[0], ast.IsNot)
     if any(isinstance(n, (ast.Name, ast.Attribute, ast.Call, ast.Subscript)) for n in ast.walk(test)):
+        return None
+    # 'output' == 'output': a local bound to a string tag on this path, compared with a tag
+    if isinstance(test, ast.Compare) and len(test.ops) == 1 and isinstance(test.left, ast.Constant) and isinstance(test.comparators[0], ast.Constant) and isinstance(test.left.value, str) and isinstance(test.comparators[0].value, str):
+        if isinstance(test.ops[0], ast.Eq):
+            return test.left.value == test.comparators[0].value
+        if isinstance(test.ops[0], ast.NotEq):
+            return test.left.value != test.comparators[0].value
         return None
     try:
         return bool(_int_eval(test, {}))
@@ -487,6 +521,30 @@ class _FoldAssume(ast.NodeTransformer):
         v = _truth_under(node.test, self.assume)
         if v is None:
             v = _const_truth(node.test)
+        if v is None and callable(self.assume.get("__decide__")):
+            v = self.assume["__decide__"](node.test)
+        if v is None:
+            return node
+        return node.body if v else node.orelse
+
+
+class _FoldDecided(ast.NodeTransformer):
+    """`a if <test> else b` inside a test, with <test> decided by the scenario, by constants, by an identical
+    structural test taken earlier on the path, or by the scenario's decision procedure"""
+
+    def __init__(self, p, assume):
+        self.p = p
+        self.assume = assume
+
+    def visit_IfExp(self, node):
+        self.generic_visit(node)
+        v = _truth_under(node.test, self.assume)
+        if v is None:
+            v = _const_truth(node.test)
+        if v is None:
+            v = _already_decided(node.test, self.p)
+        if v is None and callable(self.assume.get("__decide__")):
+            v = self.assume["__decide__"](node.test)
         if v is None:
             return node
         return node.body if v else node.orelse
@@ -729,6 +787,9 @@ def _run_stmt(st, p, done, assume, max_paths, caller=None):
         decided = _truth_under(st.test, assume)
         out = []
         for p0, et in _inlined(expand(st.test, p.env), p, done, assume, max_paths, caller):
+            if decided is None and any(isinstance(n, ast.IfExp) for n in uwalk(et)):
+                # (a if c else None) is not None, with c decided on this path: the test of the chosen value
+                et = _FoldDecided(p0, assume).visit(clone(et))
             dec = decided
             if dec is None and p0.env:
                 dec = _const_truth(et)  # a test on constant arguments of an inlined helper
